@@ -822,3 +822,62 @@ def r_prox_zero_weight(A, ctx, scope, rule="R-PROX-ZEROWEIGHT"):
                 except (Unsupported, Raised, ZeroDivisionError) as e:
                     ctx.ob(rule, key, None, detail=f"value not lifted: {e}")
     ctx.floor(rule, n, scope.get("floor", 12))
+
+
+# ------------------------------------------------------------------- alpha_max under positivity
+AMAX_G = [(-2.0, 0.3), (0.3, -2.0), (2.0, -0.3), (-0.3, 2.0), (-1.0, -2.5), (1.0, 2.5)]
+
+
+def r_alphamax_positive(A, ctx, scope, rule="R-ALPHAMAX-POS"):
+    ctx.rule(rule, "alpha_max with positive=True is not below the critical strength: on every sign / "
+             "order region of a two-coordinate gradient the lifted alpha_max is at least "
+             "max_j (-g_j)_+ / k_j, with alpha * k_j the slope of the penalty's own value() at 0+ "
+             "(below it the null model is not a solution; the comparison is made at the region's "
+             "witness, both sides are piecewise linear in g)")
+    n = 0
+    for cls in A.prog.penalties:
+        am = cls.find_method("alpha_max")
+        if am is None or am.cls.name == "BasePenalty" or "positive" not in A.prog.init_params(cls):
+            continue
+        where = loc(am, am.node)
+        model = ScalarModel(A, cls, {"positive": True})
+        try:
+            obj = model.self_obj()
+        except Unsupported as e:
+            ctx.note(f"{rule}: {cls.name} skipped: {e}")
+            continue
+        if "weights" in obj.attrs:
+            obj.attrs["weights"] = Vec([sym("wtA"), sym("wt")])
+        # slopes at 0+ per unit alpha
+        ks = []
+        try:
+            for j in range(2):
+                L, rg = model.lifter({"eps": 1e-4})
+                w = [const(0), const(0)]
+                w[j] = sym("eps")
+                val = R(L.call_function(cls.find_method("value"), [Vec(w)], self_obj=obj))
+                k = substitute(derivative(val, ("sym", "eps")), {("sym", "eps"): const(0)}) / sym("alpha")
+                ks.append(k)
+        except (Unsupported, Raised, ZeroDivisionError) as e:
+            ctx.ob(rule, f"{cls.fq}::slope", None, detail=f"value not lifted: {e}")
+            continue
+        for gs in AMAX_G:
+            key = f"{cls.fq}::alpha_max::g={gs}"
+            try:
+                L, rg = model.lifter({"g0": gs[0], "g1": gs[1]})
+                got = R(L.call_function(am, [Vec([sym("g0"), sym("g1")])], self_obj=obj))
+                crit = const(0)
+                for j in range(2):
+                    c = L.maxmin(True, const(0), -sym(f"g{j}")) / ks[j]
+                    crit = L.maxmin(True, crit, c)
+                gap = got - crit
+                gnum = rg.num(gap)
+            except (Unsupported, Raised, ZeroDivisionError) as e:
+                ctx.ob(rule, key, None, detail=f"not lifted: {e}")
+                continue
+            n += 1
+            ctx.ob(rule, key, gap.is_zero() or gnum >= -1e-12,
+                   what=f"{cls.name}(positive=True).alpha_max({gs}) = {rg.num(got):.4g} is below the critical "
+                        f"strength {rg.num(crit):.4g} = max_j (-g_j)_+ / k_j: at alpha_max the null model "
+                        "is not a solution", loc=where)
+    ctx.floor(rule, n, scope.get("floor", 20))
